@@ -81,9 +81,12 @@ def gen(rng, kind, tier):
         opts.pop("num_processes", None)
         if opts["refine"] and rng.random() < 0.5:
             opts["refine"] = False  # keep most histories cheap
-        source = str(rng.choice(["none", "none", "index", "callable"]))
-        return {"grid": spec, "fields": [field_desc(rng, spec) for _ in range(n)], "times": _times(rng, n),
+        source = str(rng.choice(["none", "none", "index", "callable", "callable-on-field"]))
+        case = {"grid": spec, "fields": [field_desc(rng, spec) for _ in range(n)], "times": _times(rng, n),
                 "opts": opts, "source": source, "prefilled": bool(rng.random() < 0.2)}
+        if rng.random() < 0.08:
+            case["offline_processes"] = 2
+        return case
     if kind == "lengthscale":
         fam = str(rng.choice(["cart", "cart", "cart", "polar", "cyl"]))
         if fam == "cart":
@@ -96,7 +99,7 @@ def gen(rng, kind, tier):
         n = int(rng.integers(1, 9))
         method = str(rng.choice(["structure_factor_mean", "structure_factor_maximum", "droplet_detection", "bogus"]))
         return {"grid": spec, "fields": [field_desc(rng, spec) for _ in range(n)], "times": _times(rng, n),
-                "method": method, "source": str(rng.choice(["none", "index", "callable"]))}
+                "method": method, "source": str(rng.choice(["none", "index", "callable", "callable-on-field"]))}
     if kind == "solver":
         n = int(rng.choice([16, 24, 32]))
         return {"pde": str(rng.choice(["cahn-hilliard", "diffusion"])), "n": n,
@@ -116,7 +119,17 @@ def _wrap_source(field, source):
     other = ScalarField(field.grid, np.full(field.grid.shape, 0.25))
     if source == "index":
         return FieldCollection([other, field]), 1
+    if source == "callable-on-field":
+        # a callable source applied to a plain scalar state (e.g. "analyse 1 - c"): the tracker is fed the
+        # complement and has to analyse what the callable extracts from it
+        return ScalarField(field.grid, 1.0 - np.asarray(field.data, float)), _complement
     return FieldCollection([other, field]), (lambda fc: fc[1])
+
+
+def _complement(state):
+    from pde import ScalarField
+
+    return ScalarField(state.grid, 1.0 - np.asarray(state.data, float))
 
 
 def _same_value(a, b):
@@ -133,6 +146,10 @@ def run_direct(case, rec):
     spec = case["grid"]
     grid = geom.make_grid(spec)
     fields = [make_field(grid, spec, fd) for fd in case["fields"]]
+    feeds = [_wrap_source(f, case["source"])[0] for f in fields]
+    if case["source"] == "callable-on-field":
+        # what the callable extracts from the fed state (1 - (1 - f)) is the field to be analysed
+        fields = [_complement(g) for g in feeds]
     times = case["times"]
     o = case["opts"]
     scratch = Path(os.environ.get("VERIF_SCRATCH") or "/tmp")
@@ -151,8 +168,7 @@ def run_direct(case, rec):
     ok = True
     with monitors.wrap_attr(ia, "locate_droplets", monitors.recording(log, "locate_droplets"),
                             aliases=[(droplets, "locate_droplets")]):
-        for f, t in zip(fields, times):
-            fed, _ = _wrap_source(f, case["source"])
+        for fed, t in zip(feeds, times):
             c = common.monitored(rec, "DropletTracker.handle", tracker.handle, fed, t)
             if not rec.check(c.ok, "no-exception", f"DropletTracker.handle raised {common.exc_text(c.exc) if c.exc else ''}; {label}"):
                 ok = False
@@ -192,6 +208,9 @@ def run_direct(case, rec):
     kwargs = {"threshold": thr, "minimal_radius": o["minimal_radius"], "refine": o["refine"], "modes": o["modes"], "progress": False}
     if o.get("refine_args"):
         kwargs["refine_args"] = dict(o["refine_args"])
+    if case.get("offline_processes"):
+        kwargs["num_processes"] = case["offline_processes"]  # "offline with the same settings", in worker processes
+        rec.count("offline_analysis_in_worker_processes")
     off = common.monitored(rec, "from_storage", droplets.EmulsionTimeCourse.from_storage, storage, **kwargs)
     n_pre = 1 if pre is not None else 0
     if rec.check(off.ok, "no-exception", f"from_storage raised {common.exc_text(off.exc) if off.exc else ''}; {label}"):
@@ -230,6 +249,9 @@ def run_lengthscale(case, rec):
     spec = case["grid"]
     grid = geom.make_grid(spec)
     fields = [make_field(grid, spec, fd) for fd in case["fields"]]
+    feeds = [_wrap_source(f, case["source"])[0] for f in fields]
+    if case["source"] == "callable-on-field":
+        fields = [_complement(g) for g in feeds]
     times = case["times"]
     scratch = Path(os.environ.get("VERIF_SCRATCH") or "/tmp")
     path = str(scratch / f"c14_{os.getpid()}.json")
@@ -237,12 +259,11 @@ def run_lengthscale(case, rec):
     tracker = droplets.LengthScaleTracker(1, filename=path, method=case["method"], source=src_arg)
     label = f"grid={geom.grid_label(spec)}{spec['shape']} fields={[f['type'] for f in case['fields']]} method={case['method']}"
     expect = []
-    for f, t in zip(fields, times):
+    for f, fed, t in zip(fields, feeds, times):
         try:
             expect.append(ia.get_length_scale(f, method=case["method"]))
         except Exception:  # noqa: BLE001 - the tracker must record NaN in this case
             expect.append(math.nan)
-        fed, _ = _wrap_source(f, case["source"])
         c = common.monitored(rec, "LengthScaleTracker.handle", tracker.handle, fed, t)
         rec.check(c.ok, "never-raises", f"LengthScaleTracker.handle raised {common.exc_text(c.exc) if c.exc else ''}; {label}")
     got = list(tracker.length_scales)
